@@ -39,7 +39,14 @@ def module_ast(filename: str):
     if filename not in _mod_cache:
         with open(filename, encoding="utf-8") as f:
             src = f.read()
-        for (suffix, old, new) in MUTATIONS:
+        for mut in MUTATIONS:
+            if mut[0] == "pos":
+                # ("pos", file suffix, start, end, new text): replace one source span (tools/mutants.py)
+                _, suffix, a, b, new = mut
+                if filename.endswith(suffix):
+                    src = src[:a] + new + src[b:]
+                continue
+            (suffix, old, new) = mut
             if filename.endswith(suffix):
                 if old not in src:
                     raise LookupError(f"canary pattern not found in {filename}: {old!r}")
@@ -50,6 +57,11 @@ def module_ast(filename: str):
                 child._parent = node  # type: ignore[attr-defined]
         _mod_cache[filename] = (tree, src)
     return _mod_cache[filename]
+
+
+# decorators the extraction drops: they register the function (click, lark's v_args) or only change how it is bound;
+# `deprecated` (utils.py) wraps with a warning and calls through.  Anything else (caches, retries, locks ...) is out of reach.
+TRANSPARENT_DECORATORS = {"v_args", "classmethod", "staticmethod", "functools.wraps", "deprecated"}
 
 
 def is_repo_function(fn) -> bool:
